@@ -15,7 +15,8 @@ for d in seeded/$PAT/; do
   prop=$(python3 -c "import json;print(json.load(open('$d/meta.json'))['breaks_property'])")
   also=$(python3 -c "import json;m=json.load(open('$d/meta.json'));print(' '.join(p for p in m.get('detected_by',[]) if p!=m['breaks_property']))")
   git -C /repo apply "/verif/${d}patch.diff" 2>/dev/null || { echo "$name: patch does not apply"; continue; }
-  out=$(./check $prop 2>&1); rc=$?
+  tier=$(python3 -c "import json;print(json.load(open('$d/meta.json')).get('tier','quick'))")
+  out=$(./check $prop --tier $tier 2>&1); rc=$?
   v=$(echo "$out" | grep -E "^VIOLATION" | head -1)
   git -C /repo checkout -- .
   n=$((n+1))
